@@ -75,7 +75,7 @@ def run(ctx):
     except TF.Refuse as e:
         ctx.obligation("translate_fstops", False, f"translator refused: {e}")
         tr_ok = False
-    ok, out = ctx.build(["proofs/FilterMachine.vo", "proofs/ProductProofs.vo", "proofs/FstOpsProofs.vo", "proofs/GenFstOpsBridge.vo", "model/FstCompose.vo", "model/EpsSpec.vo"]) if tr_ok else (False, "translator")
+    ok, out = ctx.build(["proofs/FilterMachine.vo", "proofs/ProductProofs.vo", "proofs/FstOpsProofs.vo", "proofs/GenFstOpsBridge.vo", "proofs/FstStringProofs.vo", "model/FstCompose.vo", "model/EpsSpec.vo"]) if tr_ok else (False, "translator")
     if ok:
         ctx.prove("props/C10.v")
     else:
